@@ -118,6 +118,7 @@ def read_task(prop, cfg, tier, seed):
             opaque=("parent",) if has_parent else (),
             prefer=[nblocks <= 1 << 20] + ([length <= 16 << 20] if bs <= (4 << 20) else []))
         ctx.scenario.wide = [offset >= 1 << 39]
+        ctx.scenario.small = [nblocks]
         obj = m.VDI(fh, parent)
         res = obj._read(offset, length)
         sv = spec.guest_byte(offset + j, hdr_blocks_off, hdr_data_off, bs, mem, par)
